@@ -95,6 +95,22 @@ fn wide(name: String, params: Value) -> Scenario {
                     return sys.report(ex, &[]);
                 }
             }
+            // every third identifier is released and used again at once, while the others stay open; then
+            // the open ones are repeated once more (a structure that summarises the set - a filter, a
+            // range - goes stale when part of the set leaves)
+            for &pid in order.iter().filter(|p| **p % 3 == 0) {
+                sys.apply(Ev::Deliver(pubrel_in(pid)));
+                sys.apply(Ev::Deliver(inbound(2, false, pid, &[sid], &format!("reused{}-{}", round, pid))));
+                if sys.dead {
+                    return sys.report(ex, &[]);
+                }
+            }
+            for &pid in order.iter().filter(|p| **p % 3 != 0) {
+                sys.apply(Ev::Deliver(inbound(2, true, pid, &[sid], "once more")));
+                if sys.dead {
+                    return sys.report(ex, &[]);
+                }
+            }
             for &pid in &order {
                 sys.apply(Ev::Deliver(pubrel_in(pid)));
                 if sys.dead {
